@@ -7,7 +7,7 @@ from ..pyfront import find_def, find_all, match, walk_local, dotted, methods_of
 from ..flowq import iter_polarity
 from ..cfg import cfg_of
 from ..sympath import summaries, normal
-from .sem import nt
+from .sem import nt, ifexp_table
 from .specsem import (fact_cmp, iterated, polarity_text, loop_exits,
                       each_conditions, all_paths, fact_indices)
 
@@ -946,3 +946,181 @@ def super_cache_owner(rep, mod, rule):
               'the super-spec cache belongs to the specification of the concrete '
               'type (%s)' % OWNER if not probs else {'problems': sorted(set(probs))[:3]},
               construct='super-cache', node=sup)
+
+
+# ---------------------------------------------------------------------------
+# C19: super proxies, over path summaries
+
+def changed_drops_super_cache(rep, mod, rule):
+    f = find_def(mod, 'Implements.changed')
+    probs = []
+    ss = normal(summaries(f))
+    for ps in ss:
+        sup = [e for e in ps.events if e.kind == 'call' and
+               nt(e.r) == 'super().changed(originally_changed)']
+        drop = [e for e in ps.dels() if nt(e.r) == 'self._super_cache'] + \
+            [e for e in ps.stores() if nt(e.r) == 'self._super_cache'
+             and nt(e.val) == 'None']
+        if len(sup) != 1:
+            probs.append('super().changed(originally_changed) called %d times on a path'
+                         % len(sup))
+            continue
+        if not drop:
+            probs.append('a path keeps the super-spec cache')
+        elif ps.index(drop[0]) > ps.index(sup[0]):
+            probs.append('the cache is dropped only after the dependents were notified')
+    rep.check(rule, 'Implements.changed', bool(ss) and not probs,
+              'drops _super_cache on every path, before super().changed'
+              if not probs else {'problems': sorted(set(probs))[:3]},
+              construct='cache-drop', node=f)
+
+
+def super_remainder(rep, mod, rule):
+    f = find_def(mod, '_next_super_class')
+    p = f.args.args[0].arg
+    MRO = '%s.__self_class__.__mro__' % p
+    want = '%s[%s.index(%s.__thisclass__) + 1]' % (MRO, MRO, p)
+    rets = [nt(ps.ret) for ps in normal(summaries(f))]
+    rep.check(rule, 'declarations._next_super_class',
+              bool(rets) and all(r == want for r in rets),
+              'next class = __self_class__.__mro__[index(__thisclass__) + 1]: %s'
+              % sorted(set(rets))[:2], construct='next', node=f)
+    f = find_def(mod, '_implementedBy_super')
+    p = f.args.args[0].arg
+    MRO = '%s.__self_class__.__mro__' % p
+    KEEP = '%s[%s.index(_next_super_class(%s)):]' % (MRO, MRO, p)
+    probs = []
+    n = 0
+    for ps in normal(summaries(f)):
+        named = [e for e in ps.events if e.kind == 'call' and
+                 dotted(e.r.func) == 'Implements.named']
+        if not named:
+            continue
+        n += 1
+        c = named[0].r
+        star = [a.value for a in c.args if isinstance(a, ast.Starred)]
+        if len(named) != 1 or len(star) != 1 or len(c.args) != 2:
+            probs.append('synthesized as `%s`' % nt(c)[:80])
+            continue
+        b = star[0]
+        if isinstance(b, ast.Call) and dotted(b.func) in ('list', 'tuple') and b.args:
+            b = b.args[0]
+        ok = False
+        if isinstance(b, (ast.ListComp, ast.GeneratorExp)) and len(b.generators) == 1:
+            g = b.generators[0]
+            src, d = iter_polarity(g.iter)
+            ok = not g.ifs and d == 'fwd' and nt(src) == KEEP and \
+                isinstance(g.target, ast.Name) and \
+                nt(b.elt) == 'implementedBy(%s)' % g.target.id
+        if not ok:
+            probs.append('bases `%s` (required: the live specifications of '
+                         '__self_class__.__mro__[index(next class):], forward, '
+                         'unfiltered)' % nt(b)[:100])
+        if nt(ps.ret) != nt(c):
+            probs.append('a computing path returns `%s`' % nt(ps.ret)[:60])
+    if not n:
+        probs.append('no path synthesizes a specification')
+    rep.check(rule, 'declarations._implementedBy_super', not probs,
+              'bases = [implementedBy(c) for c in __self_class__.__mro__[index('
+              'next class):]] (forward, unfiltered), passed whole to '
+              'Implements.named; the new spec is returned'
+              if not probs else {'problems': sorted(set(probs))[:3]},
+              construct='remainder', node=f)
+
+
+def super_cache_protocol(rep, mod, rule):
+    f = find_def(mod, '_implementedBy_super')
+    p = f.args.args[0].arg
+    OWNER = 'implementedBy(%s.__self_class__)' % p
+    KEY = '%s.__thisclass__' % p
+    CACHE = '%s._super_cache' % OWNER
+    probs = []
+    hit = miss = 0
+    for ps in normal(summaries(f)):
+        fresh = [nt(e.val) for e in ps.stores() if nt(e.r) == CACHE]
+        tables = [CACHE] + fresh
+        named = [e for e in ps.events if e.kind == 'call' and
+                 dotted(e.r.func) == 'Implements.named']
+        ret = nt(ps.ret)
+        if named:
+            miss += 1
+            st = [e for e in ps.stores() if isinstance(e.r, ast.Subscript)
+                  and nt(e.r.value) in tables]
+            if len(st) != 1 or nt(st[0].r.slice) != KEY or nt(st[0].val) != nt(named[0].r):
+                probs.append('the new spec is not stored once under %s in the cache of '
+                             '%s: %s' % (KEY, OWNER, [repr(e)[:60] for e in st]))
+            if ps.facts.get('EXCEPT(KeyError)') is not True and \
+                    not any('%s in ' % KEY in c for c, t, pp in ps.order):
+                probs.append('computes without having missed the cache')
+        else:
+            hit += 1
+            if ret not in ['%s[%s]' % (t, KEY) for t in tables] and \
+                    not any(ret == '%s.get(%s)' % (t, KEY) for t in tables):
+                probs.append('a path without computation returns `%s`' % ret[:70])
+        other = [repr(e)[:60] for e in ps.events
+                 if '_super_cache' in repr(e) and CACHE not in repr(e)]
+        if other:
+            probs.append('cache reached through `%s`' % other[0])
+    if not (hit and miss):
+        probs.append('hit paths %d, miss paths %d' % (hit, miss))
+    rep.check(rule, 'declarations._implementedBy_super', not probs,
+              'the cache lives in implementedBy(__self_class__) (the remainder '
+              'depends on the concrete type\'s MRO), keyed by __thisclass__; a hit '
+              'returns the entry, a miss stores the new spec once'
+              if not probs else {'problems': sorted(set(probs))[:3]},
+              construct='cache-owner', node=f)
+
+
+def super_unwrap(rep, amod, rule):
+    h = find_def(amod, 'LookupBase.adapter_hook')
+    probs = []
+    kinds = set()
+    for ps in normal(summaries(h)):
+        fc = [e for e in ps.events if e.kind == 'call' and isinstance(e.r.func, ast.Call)
+              and len(e.r.args) == 1 and not e.r.keywords]
+        if not fc:
+            continue
+        t = ps.facts.get('isinstance(object, super)')
+        kinds.add(t)
+        for e in fc:
+            a = nt(e.r.args[0])
+            if t is None:
+                probs.append('factory called without testing for a super proxy')
+            elif a != ('object.__self__' if t else 'object'):
+                probs.append('%s: factory called with `%s`'
+                             % ('super proxy' if t else 'plain object', a))
+    if kinds != {True, False}:
+        probs.append('factory-call paths seen for the super test: %s'
+                     % sorted(kinds, key=str))
+    rep.check(rule, 'LookupBase.adapter_hook', not probs,
+              'on every path that calls the factory, a super proxy is replaced '
+              'by the proxied object itself' if not probs else
+              {'problems': sorted(set(probs))[:3]}, construct='unwrap', node=h)
+    q = find_def(amod, 'AdapterLookupBase.queryMultiAdapter')
+    probs = []
+    n = 0
+    for ps in normal(summaries(q)):
+        fc = [e for e in ps.events if e.kind == 'call' and isinstance(e.r.func, ast.Call)]
+        for e in fc:
+            n += 1
+            args = e.r.args
+            ok = False
+            if len(args) == 1 and isinstance(args[0], ast.Starred) and \
+                    isinstance(args[0].value, (ast.ListComp, ast.GeneratorExp)) and \
+                    len(args[0].value.generators) == 1:
+                comp = args[0].value
+                g = comp.generators[0]
+                src, d = iter_polarity(g.iter)
+                o = g.target.id if isinstance(g.target, ast.Name) else None
+                tab = ifexp_table(comp.elt)
+                ok = nt(src) == 'objects' and d == 'fwd' and not g.ifs and tab == {
+                    (('isinstance(%s, super)' % o, True),): '%s.__self__' % o,
+                    (('isinstance(%s, super)' % o, False),): o}
+            if not ok:
+                probs.append('factory arguments `%s`' % nt(e.r)[-100:])
+    if not n:
+        probs.append('no factory call found')
+    rep.check(rule, 'AdapterLookupBase.queryMultiAdapter', not probs,
+              'every proxied object is unwrapped for the factory call, in order'
+              if not probs else {'problems': sorted(set(probs))[:3]},
+              construct='unwrap', node=q)
